@@ -570,6 +570,38 @@ func init() {
 				if !sub {
 					r.Fail(push.Name()+":replaced-not-subtracted", push.Decl.Pos(), nil, "Push obtains the replaced element but does not subtract its size")
 				}
+				// ... on every path where something was replaced (the flag is true)
+				var okVar types.Object
+				inspect(push.Decl.Body, func(nd ast.Node) bool {
+					if as, isAs := nd.(*ast.AssignStmt); isAs && len(as.Lhs) == 2 && len(as.Rhs) == 1 {
+						if call, isCall := ast.Unparen(as.Rhs[0]).(*ast.CallExpr); isCall {
+							if sel, isSel := ast.Unparen(call.Fun).(*ast.SelectorExpr); isSel && sel.Sel.Name == "ReplaceOrInsert" {
+								okVar = prog.IdentObjPlain(info, as.Lhs[1])
+							}
+						}
+					}
+					return true
+				})
+				if okVar != nil && sub {
+					spec := &pathsim.Spec{AtomDeps: map[int][]types.Object{0: {okVar}}}
+					spec.Atom = func(c *pathsim.Ctx, e ast.Expr) (int, bool, bool) {
+						if prog.IdentObj(c.Info, e) == okVar {
+							return 0, false, true
+						}
+						return 0, false, false
+					}
+					spec.Step = func(c *pathsim.Ctx, s pathsim.State, ev *pathsim.Event) []pathsim.State {
+						if ev.Kind == pathsim.EvAssign && ev.Tok == token.SUB_ASSIGN && len(ev.Lhs) == 1 && prog.SelField(c.Info, ev.Lhs[0]) == size {
+							s.A = 1
+							return []pathsim.State{s}
+						}
+						if (ev.Kind == pathsim.EvReturn || ev.Kind == pathsim.EvExit) && s.A == 0 && s.V[0] != pathsim.False {
+							c.Violate(ev.Pos, "[replaced-not-subtracted] Push can return after replacing an element without subtracting its size: repeated registration of the same timer inflates the accounted size")
+						}
+						return nil
+					}
+					r.Sim(push.Decl, push.Name(), spec)
+				}
 			}
 			for _, n := range []string{"Pop", "PopLast", "Delete"} {
 				f := r.P.Func("util/ds", "(*SortedCache)."+n)
